@@ -5,7 +5,7 @@
 set -u
 SRC=$(readlink -f "$1"); ID=$(basename $(dirname $SRC)); MN=$(basename $SRC)
 export PATH=/opt/veriftools/go1.26.8/bin:$PATH GOTOOLCHAIN=local GOPROXY=off GOSUMDB=off GOFLAGS=-mod=vendor
-W=/tmp/sv_${ID}_${MN}; LOG=/tmp/sv_${ID}_${MN}.log; : > $LOG
+TAG=${SEED_TAG:-}; W=/tmp/sv_${ID}_${TAG}${MN}; LOG=/tmp/sv_${ID}_${TAG}${MN}.log; : > $LOG
 git -C /repo worktree remove --force $W >/dev/null 2>&1; rm -rf $W
 git -C /repo worktree add --detach $W HEAD -q || exit 2
 DEMO=$(python3 -c "import json;print(json.load(open('$SRC/meta.json'))['demo_cmd'])")
@@ -25,9 +25,9 @@ if [ $r_build = ok ]; then
 fi
 CAUGHT=$(/verif/scripts/seedcheck.sh $SRC/patch.diff all 2>/dev/null | grep -E "^C[0-9]+ violations=" | awk '{print $1}' | tr '\n' ' ')
 git -C /repo worktree remove --force $W >/dev/null 2>&1
-echo "$ID $MN demo_passes_clean=$r_pass0 builds=$r_build demo_fails_patched=$r_fail1 existing_tests($PKGS)=$r_tests caught_by=[$CAUGHT]"
+echo "$ID ${TAG}$MN demo_passes_clean=$r_pass0 builds=$r_build demo_fails_patched=$r_fail1 existing_tests($PKGS)=$r_tests caught_by=[$CAUGHT]"
 if [ $r_pass0 = ok ] && [ $r_build = ok ] && [ $r_fail1 = ok ] && [ $r_tests = ok ]; then
-  D=/verif/seeded/${ID}-${MN}; mkdir -p $D; cp $SRC/patch.diff $D/; for t in $SRC/*_test.go; do [ -f "$t" ] && cp "$t" $D/$(basename $t).txt; done
+  D=/verif/seeded/${ID}-${TAG}${MN}; mkdir -p $D; cp $SRC/patch.diff $D/; for t in $SRC/*_test.go; do [ -f "$t" ] && cp "$t" $D/$(basename $t).txt; done
   for t in $SRC/*/*_test.go; do [ -f "$t" ] && cp "$t" $D/$(basename $(dirname $t))_$(basename $t).txt; done
   python3 - "$SRC/meta.json" "$D/meta.json" "$CAUGHT" "$PKGS" "$DEMO" <<'PY'
 import json,sys
